@@ -281,6 +281,44 @@ theorem spansFrom_abut (p q a T : Nat) (cuts : List Nat) :
   | nil => exact ⟨rfl, rfl⟩
   | cons c cs ih => exact ⟨rfl, ih c⟩
 
+theorem AbutFrom.next {e : Nat} : ∀ {l : List (Nat × Nat)} {s n : Nat} {x y : Nat × Nat},
+    AbutFrom s e l → l[n]? = some x → l[n + 1]? = some y → x.2 + 1 = y.1 := by
+  intro l
+  induction l with
+  | nil => intro s n x y _ hx; simp at hx
+  | cons a r ih =>
+    intro s n x y h hx hy
+    cases n with
+    | zero =>
+      simp only [List.getElem?_cons_zero, Option.some.injEq] at hx
+      subst hx
+      cases r with
+      | nil => simp at hy
+      | cons b r' =>
+        simp only [List.getElem?_cons_succ, List.getElem?_cons_zero, Option.some.injEq] at hy
+        subst hy
+        exact h.2.1.symm
+    | succ n =>
+      simp only [List.getElem?_cons_succ] at hx hy
+      exact ih h.2 hx hy
+
+theorem AbutFrom.last {e : Nat} : ∀ {l : List (Nat × Nat)} {s : Nat} {x : Nat × Nat},
+    AbutFrom s e l → l.getLast? = some x → x.2 = e := by
+  intro l
+  induction l with
+  | nil => intro s x _ hx; simp at hx
+  | cons a r ih =>
+    intro s x h hx
+    cases r with
+    | nil =>
+      simp only [List.getLast?_singleton, Option.some.injEq] at hx
+      subst hx
+      have : a.2 + 1 = e + 1 := h.2
+      omega
+    | cons b r' =>
+      rw [List.getLast?_cons_cons] at hx
+      exact ih h.2 hx
+
 /-- earlier pieces end before later pieces begin (hence pairwise disjoint, and sorted by start) -/
 theorem spansFrom_pairwise {p q : Nat} (hq : 1 ≤ q) (hpq : q ≤ p) {a T : Nat} {cuts : List Nat}
     (hinc : Inc a (cuts ++ [T])) :
